@@ -607,10 +607,36 @@ class CharInterp:
                 self.ev(c, env, m)
             return B()
         if isinstance(n, ast.GeneratorExp) or isinstance(n, ast.ListComp):
-            if len(n.generators) != 1 or not isinstance(n.generators[0].target, ast.Name):
+            if not n.generators or not isinstance(n.generators[0].target, ast.Name):
                 raise AnalysisError(f"E6: unsupported comprehension {m.rel}:{n.lineno}")
             gen = n.generators[0]
             tv = gen.target.id
+            if len(n.generators) > 1:
+                # `[e for a in A for b in B(a)]` is the concatenation of `[e for b in B(a)]` over the items a of A: its elements are
+                # those of the inner lists; which of them comes first, and whether there is one at all, is not tracked
+                flat = self._flattened_findall(n, m)
+                if flat is not None:
+                    return self.ev(flat, env, m)
+                outer = self.ev(gen.iter, env, m)
+                if isinstance(outer, S):
+                    item: Any = S(outer.any, outer.any, False)
+                elif isinstance(outer, L):
+                    item = join_s(outer.elem, outer.head)
+                else:
+                    raise AnalysisError(f"E6: comprehension over non-list {m.rel}:{n.lineno}")
+                e2 = dict(env)
+                self._bind(e2, tv, item)
+                for cnd in gen.ifs:
+                    c = self.truth(cnd, e2, m)
+                    if isinstance(c, B):
+                        self.refine(e2, c.when_true)
+                inner_node = ast.copy_location(type(n)(elt=n.elt, generators=n.generators[1:]), n)
+                inner = self.ev(inner_node, e2, m)
+                if isinstance(inner, tuple) and inner and inner[0] == "iter":
+                    return ("iter", inner[1])
+                if not isinstance(inner, L):
+                    raise AnalysisError(f"E6: nested comprehension does not yield a list {m.rel}:{n.lineno}")
+                return L(join_s(inner.elem, inner.head), True)
 
             dropped = [False]  # some filter may reject an item
 
@@ -645,12 +671,69 @@ class CharInterp:
             return self.call(n, env, m)
         if isinstance(n, ast.Attribute):
             return ("attr", ast.unparse(n))
+        if isinstance(n, (ast.List, ast.Tuple)) and n.elts and not any(isinstance(x, ast.Starred) for x in n.elts):
+            items = [self.ev(x, env, m) for x in n.elts]
+            if all(isinstance(x, S) for x in items):  # a display of strings
+                el = items[0]
+                for x in items[1:]:
+                    el = join_s(el, x)
+                return L(el, False, items[0])
         if isinstance(n, (ast.Dict, ast.List, ast.Set)) and not getattr(n, "keys", getattr(n, "elts", None)):
             return ("container",)
         raise AnalysisError(f"E6: unsupported expression {type(n).__name__} at {m.rel}:{getattr(n, 'lineno', 0)}")
 
+    def _flattened_findall(self, n: ast.ListComp | ast.GeneratorExp, m: Module) -> ast.expr | None:
+        """`[w for piece in PIECES for w in findall(P, piece)]` finds, piece by piece, what `findall(P, SEP.join(PIECES))` finds in one
+        go, for any separator character P cannot match (no match spans a separator, and inside a piece the matches are the same):
+        the equivalent single call when the comprehension has that form and a blank is such a separator; None otherwise."""
+        if len(n.generators) != 2 or any(g.ifs for g in n.generators):
+            return None
+        g1, g2 = n.generators
+        if not (isinstance(g1.target, ast.Name) and isinstance(g2.target, ast.Name) and isinstance(n.elt, ast.Name)
+                and n.elt.id == g2.target.id and isinstance(g2.iter, ast.Call) and not g2.iter.keywords):
+            return None
+        c = g2.iter
+        pat: ast.expr | None = None
+        if dotted(c.func) == "re.findall" and len(c.args) == 2:
+            pat, subject = c.args
+        elif isinstance(c.func, ast.Attribute) and c.func.attr == "findall" and len(c.args) == 1:
+            pat, subject = self._compiled_pattern(c.func.value, m), c.args[0]
+        if pat is None or not (isinstance(subject, ast.Name) and subject.id == g1.target.id):
+            return None
+        text = self.ix.const_str(m, pat)
+        cls = self.single_class_plus(text) if text is not None else None
+        if cls is None or cls & bits_of_str(" "):
+            return None
+        joined = ast.Call(func=ast.Attribute(value=ast.Constant(value=" "), attr="join", ctx=ast.Load()), args=[g1.iter], keywords=[])
+        out = ast.Call(func=ast.Attribute(value=ast.Name(id="re", ctx=ast.Load()), attr="findall", ctx=ast.Load()), args=[pat, joined], keywords=[])
+        ast.copy_location(out, n)
+        return ast.fix_missing_locations(out)
+
+    def _compiled_pattern(self, e: ast.expr, m: Module, depth: int = 0) -> ast.expr | None:
+        """the pattern argument of the `re.compile(...)` call an expression is (bound to): the call itself, or a module-level name
+        bound to it once; flags are not interpreted, so a compile call with flags is not taken"""
+        if isinstance(e, ast.Call) and dotted(e.func) in ("re.compile", "compile") and len(e.args) == 1 and not e.keywords:
+            return e.args[0]
+        if isinstance(e, ast.Name) and depth < 3:
+            r = self.ix.resolve(m, e.id)
+            if r and r[0] == "var":
+                mod, name = r[1]
+                v = mod.variables.get(name)
+                if isinstance(v, ast.expr):
+                    return self._compiled_pattern(v, mod, depth + 1)
+        return None
+
     def call(self, n: ast.Call, env: dict[str, Any], m: Module) -> Any:
         t = self.t
+        if isinstance(n.func, ast.Attribute) and n.func.attr in ("sub", "split", "findall") and not n.keywords:
+            pat = self._compiled_pattern(n.func.value, m)
+            if pat is not None:
+                # P.sub(r, s) is re.sub(<pattern of P>, r, s), and so on: decided as that call
+                as_module_call = ast.Call(func=ast.Attribute(value=ast.Name(id="re", ctx=ast.Load()), attr=n.func.attr, ctx=ast.Load()),
+                                          args=[pat, *n.args], keywords=[])
+                ast.copy_location(as_module_call, n)
+                ast.fix_missing_locations(as_module_call)
+                return self.call(as_module_call, env, m)
         fn = dotted(n.func)
         callee = self._callee(fn, m)
         is_repo_func = callee is not None
@@ -743,6 +826,9 @@ class CharInterp:
         if fn == "str.__new__":
             return self.ev(n.args[1], env, m)
         if fn in ("re.sub", "re.split", "re.findall"):
+            if n.keywords or len(n.args) != (3 if fn == "re.sub" else 2):
+                # flags change what the classes mean (re.ASCII), count / maxsplit what is replaced: not modelled here, so no verdict
+                raise AnalysisError(f"E6: regex call with flags / count / keyword arguments at {m.rel}:{n.lineno}")
             pat = self.ix.const_str(m, n.args[0])
             if pat is None:
                 raise AnalysisError(f"E6: non-constant regex at {m.rel}:{n.lineno}")
